@@ -55,7 +55,78 @@ func bigLit(s string) Term {
 	return Term{s, "Int"}
 }
 
+func boolLit(b bool) Term {
+	if b {
+		return tTrue
+	}
+	return tFalse
+}
+
+func smallLit(t Term) (int64, bool) {
+	s := t.S
+	neg := false
+	if strings.HasPrefix(s, "(- ") && strings.HasSuffix(s, ")") && isIntLit(s[3:len(s)-1]) {
+		neg, s = true, s[3:len(s)-1]
+	}
+	if !isIntLit(s) || len(s) > 15 {
+		return 0, false
+	}
+	var n int64
+	fmt.Sscan(s, &n)
+	if neg {
+		n = -n
+	}
+	return n, true
+}
+
 func app(sort, op string, args ...Term) Term {
+	// light constant folding: keeps generated terms small and lets reads resolve statically
+	if sort == "Int" && len(args) == 2 && (op == "+" || op == "-" || op == "*") {
+		x, xok := smallLit(args[0])
+		y, yok := smallLit(args[1])
+		switch {
+		case xok && yok:
+			switch op {
+			case "+":
+				return intLit(x + y)
+			case "-":
+				return intLit(x - y)
+			case "*":
+				if x < 1<<30 && x > -(1<<30) && y < 1<<30 && y > -(1<<30) {
+					return intLit(x * y)
+				}
+			}
+		case yok && y == 0 && (op == "+" || op == "-"):
+			return args[0]
+		case xok && x == 0 && op == "+":
+			return args[1]
+		case yok && y == 1 && op == "*":
+			return args[0]
+		case xok && x == 1 && op == "*":
+			return args[1]
+		}
+	}
+	if sort == "Bool" && op == "=" && len(args) == 2 && args[0].S == args[1].S {
+		return tTrue
+	}
+	if sort == "Bool" && len(args) == 2 {
+		x, xok := smallLit(args[0])
+		y, yok := smallLit(args[1])
+		if xok && yok {
+			switch op {
+			case "<=":
+				return boolLit(x <= y)
+			case "<":
+				return boolLit(x < y)
+			case ">=":
+				return boolLit(x >= y)
+			case ">":
+				return boolLit(x > y)
+			case "=":
+				return boolLit(x == y)
+			}
+		}
+	}
 	if sort == "Bool" && len(args) == 2 && isIntLit(args[0].S) && isIntLit(args[1].S) && len(args[0].S) < 18 && len(args[1].S) < 18 {
 		var x, y int64
 		fmt.Sscan(args[0].S, &x)
@@ -188,6 +259,9 @@ func sel(arr, idx Term) Term {
 			return ite(eq(idx, s.b), s.c, sel(s.a, idx))
 		case 'k':
 			return s.a
+		case 'A':
+			// heap after a call that only allocates: unchanged below the old allocation counter
+			return ite(app("Bool", "<", idx, s.a), sel(s.b, idx), app(es, "select", arr, idx))
 		}
 	}
 	return app(es, "select", arr, idx)
